@@ -469,4 +469,27 @@ def Components.encode (c : Components) : Components :=
 /-- the canonical URI of plain-text components -/
 def render (c : Components) : Str := renderRaw c.encode
 
+/-- which letters of the scheme are written in upper case (URI schemes are case-insensitive; `s` is
+    ignored without TLS) -/
+structure Caps where
+  a : Bool
+  m : Bool
+  q : Bool
+  p : Bool
+  s : Bool
+deriving DecidableEq, Repr
+
+/-- `amqp://` / `amqps://` in the given spelling -/
+def casedPrefix (tls : Bool) (k : Caps) : Str :=
+  [if k.a then 'A' else 'a', if k.m then 'M' else 'm', if k.q then 'Q' else 'q', if k.p then 'P' else 'p'] ++
+    ((if tls then [if k.s then 'S' else 's'] else []) ++ [':', '/', '/'])
+
+/-- `renderRaw` with the scheme spelled as `k` says -/
+def renderRawCased (k : Caps) (c : Components) : Str :=
+  casedPrefix c.tls k ++ renderUserinfo c.user c.pass ++
+    renderHost c.host ++ renderPort c.port ++ renderPath c.vhost ++ renderQuery c.opts
+
+/-- `render` with the scheme spelled as `k` says -/
+def renderCased (k : Caps) (c : Components) : Str := renderRawCased k c.encode
+
 end Amqp.Uri
